@@ -207,6 +207,120 @@ Proof.
     eapply zl_valid; eauto. lia.
   - intros d fed del x p HR Hm. eapply (dc_prefix _ _ _ _ _ DC); eauto.
   - intros d del HR. eapply (dc_nil _ _ _ _ _ DC); eauto.
+  - intros d fed del m p HR Hm Hp. eapply (dc_no_overrun _ _ _ _ _ DC); eauto.
 Qed.
 
 End ZlibDec.
+
+(* ------------------------------------------------------------------ *)
+(* compressing direction                                               *)
+(* ------------------------------------------------------------------ *)
+Section ZlibEnc.
+Variable Member : list N -> list N -> Prop.
+Variable S : Type.
+Variable C : codec S.
+Variable ERep : S -> list N -> list N -> Prop.
+Variable mu : S -> nat.
+Variable efin : S -> Prop.
+Hypothesis EC : enc_contract Member S C ERep mu efin true.
+
+Definition ze_post (st : S) (inp : list N) (cap : nat) (fl : flush) (fed em : list N)
+           (r : xres S) (c : nat) (o : list N) : Prop :=
+  c <= length inp /\ length o <= cap /\
+  match x_stat r with
+  | XOk | XBuf =>
+      ERep (x_st r) (fed ++ firstn c inp) (em ++ o) /\
+      (efin (x_st r) -> fl = FlushFull /\ c = length inp) /\
+      (c = 0 -> mu (x_st r) + length o <= mu st) /\
+      (inp <> [] \/ fl = FlushFull -> 0 < cap -> 0 < c + length o)
+  | XEnd => fl = FlushFull /\ c = length inp /\ Member (em ++ o) (fed ++ inp) /\ ERep (x_st r) [] [] /\
+            ~ efin (x_st r)
+  | _ => False
+  end.
+
+Lemma trunc_now_enc np (rest : list N) fl mid : trunc_now false np rest fl mid = false.
+Proof. unfold trunc_now. now rewrite andb_false_r. Qed.
+
+Lemma ze_loop : forall fuel st inp cap fl ci co fed em,
+  ERep st fed em -> eadm S efin st inp fl -> length inp + cap < fuel ->
+  let r := drv_zlib C false fuel st inp cap fl ci co in
+  exists c o, x_cons r = ci + c /\ x_out r = co ++ o /\ ze_post st inp cap fl fed em r c o.
+Proof.
+  induction fuel as [|f IH]; intros st inp cap fl ci co fed em HR HA Hf; [lia|].
+  cbn [drv_zlib].
+  destruct ((negb (nilb inp) || is_full fl) && (0 <? cap)) eqn:Hc.
+  2:{ exists 0, []. cbn. rewrite Nat.add_0_r, !app_nil_r. split; [reflexivity|]. split; [reflexivity|].
+      unfold ze_post. cbn. rewrite !app_nil_r. split; [lia|]. split; [lia|]. split; [assumption|].
+      split; [intro Hfin; destruct (HA Hfin) as [-> ->]; auto|].
+      split; [lia|]. intros H1 H2. exfalso.
+      destruct (cond_false _ _ _ Hc) as [[-> H]|H]; [|lia]. destruct H1; congruence. }
+  destruct (cond_true _ _ _ Hc) as [Hin Hcap].
+  pose proof (ec_bounds _ _ _ _ _ _ _ EC st fed em inp cap fl HR HA) as HB. cbv zeta in HB.
+  pose proof (ec_step _ _ _ _ _ _ _ EC st fed em inp cap fl HR HA) as HS. cbv zeta in HS.
+  pose proof (ec_end _ _ _ _ _ _ _ EC st fed em inp cap fl HR HA) as HE. cbv zeta in HE.
+  pose proof (ec_fin _ _ _ _ _ _ _ EC st fed em inp cap fl HR HA) as HF. cbv zeta in HF.
+  pose proof (ec_progress _ _ _ _ _ _ _ EC st fed em inp cap fl HR HA) as HP. cbv zeta in HP.
+  pose proof (ec_drain _ _ _ _ _ _ _ EC st fed em inp cap fl HR HA) as HD. cbv zeta in HD.
+  pose proof (ec_no_err _ _ _ _ _ _ _ EC st fed em inp cap fl HR HA) as HN.
+  set (r := c_step C st inp cap fl) in *.
+  destruct HB as [HB1 HB2].
+  destruct (l_stat r) eqn:Hs.
+  - (* LOk: loop *)
+    specialize (HS (or_introl eq_refl)). specialize (HP Hin Hcap (or_introl eq_refl)).
+    specialize (HD (or_introl eq_refl)). specialize (HF (or_introl eq_refl)).
+    assert (Hlen : length (skipn (l_cons r) inp) = length inp - l_cons r) by apply skipn_length.
+    assert (HA' : eadm S efin (l_st r) (skipn (l_cons r) inp) fl).
+    { intro Hfin. destruct (HF Hfin) as [-> E]. split; [reflexivity|].
+      apply length_zero_nil. lia. }
+    destruct (IH (l_st r) (skipn (l_cons r) inp) (cap - length (l_out r)) fl
+                 (ci + l_cons r) (co ++ l_out r) _ _ HS HA' ltac:(lia)) as (c & o & E1 & E2 & HPost).
+    exists (l_cons r + c), (l_out r ++ o).
+    rewrite E1, E2. split; [lia|]. split; [now rewrite app_assoc|].
+    unfold ze_post in *. destruct HPost as (Hc1 & Hc2 & HM).
+    split; [lia|]. split; [rewrite app_length; lia|].
+    rewrite firstn_add_skipn, !app_assoc.
+    destruct (x_stat _); auto.
+    + destruct HM as (HM1 & HM0 & HM2 & HM3). split; [assumption|]. rewrite app_length.
+      split; [intro Hfin; destruct (HM0 Hfin) as [-> E]; split; [reflexivity|lia]|]. split.
+      * intro E0. assert (l_cons r = 0) by lia. assert (c = 0) by lia. specialize (HM2 H0). specialize (HD H). lia.
+      * intros _ _. lia.
+    + destruct HM as (HM1 & HM2 & HM3 & HM4). split; [assumption|]. split; [lia|].
+      split; [|assumption]. rewrite <- !app_assoc in HM3. rewrite <- !app_assoc.
+      rewrite firstn_skipn in HM3. exact HM3.
+    + destruct HM as (HM1 & HM0 & HM2 & HM3). split; [assumption|]. rewrite app_length.
+      split; [intro Hfin; destruct (HM0 Hfin) as [-> E]; split; [reflexivity|lia]|]. split.
+      * intro E0. assert (l_cons r = 0) by lia. assert (c = 0) by lia. specialize (HM2 H0). specialize (HD H). lia.
+      * intros _ _. lia.
+  - (* LEnd *)
+    destruct (HE eq_refl) as (HE1 & HE2 & HE3 & HE4 & HE5). unfold eafter_end in HE4, HE5.
+    exists (l_cons r), (l_out r). cbn. split; [reflexivity|]. split; [reflexivity|].
+    unfold ze_post. cbn. repeat split; auto.
+  - (* LBuf *)
+    specialize (HS (or_intror eq_refl)). specialize (HP Hin Hcap (or_intror eq_refl)).
+    specialize (HD (or_intror eq_refl)). specialize (HF (or_intror eq_refl)).
+    exists (l_cons r), (l_out r). rewrite trunc_now_enc. cbn.
+    split; [reflexivity|]. split; [reflexivity|].
+    unfold ze_post. cbn. split; [assumption|]. split; [assumption|]. split; [assumption|].
+    split; [assumption|]. split; [assumption|]. intros _ _. exact HP.
+  - congruence.
+Qed.
+
+Theorem zlib_enc_ok : edrv_contract Member S (mk_zlib C false) ERep mu efin.
+Proof.
+  constructor.
+  intros d fed em inp cap fl HR HA Hcap Hfl. cbv zeta. unfold mk_zlib, drv_fuel.
+  destruct (ze_loop (length inp + cap + 2) d inp cap fl 0 [] fed em HR HA ltac:(lia))
+    as (c & o & E1 & E2 & HP).
+  simpl in E1, E2. rewrite E1, E2. clear E1 E2.
+  unfold ze_post in HP. destruct HP as (Hc & Ho & HM).
+  set (r := drv_zlib C false (length inp + cap + 2) d inp cap fl 0 []) in *.
+  split; [intro E; rewrite E in HM; exact HM|].
+  split; [intro E; rewrite E in HM; exact HM|].
+  split; [assumption|]. split; [assumption|]. split.
+  - intro Hne. destruct (x_stat r); try contradiction; try congruence.
+    + destruct HM as (H1 & H0 & H2 & H3). split; [assumption|]. split; [assumption|]. intro Hi. split; auto.
+    + destruct HM as (H1 & H0 & H2 & H3). split; [assumption|]. split; [assumption|]. intro Hi. split; auto.
+  - intros Hs _. rewrite Hs in HM. exact HM.
+Qed.
+
+End ZlibEnc.
